@@ -45,6 +45,7 @@ func init() {
 			ruleVarintDelegation(c)
 			ruleVarSize(c)
 			ruleSkipVarint(c)
+			ruleSkipUnknownWT(c)
 			// Skip's WTSlice walk visits exactly count entries, the count taken as unsigned
 			ruleCountLoop(c)
 			ruleTagFormat(c)
@@ -77,6 +78,9 @@ func init() {
 			ruleDispatchKnown(c)
 			ruleCountLoop(c)
 			ruleSkipAfterTag(c)
+			ruleSkipUnknownWT(c)
+			ruleSkipAnyWireType(c)
+			ruleTagFormat(c)
 			ruleReadLookup(c)
 			// nested targets: a non-nil pointer is decoded into, not replaced, so fields absent below it survive
 			rulePointerWrapper(c)
